@@ -100,6 +100,10 @@ def materialise(case):
         letters["q"] = list(range(100, 100 + n))
     if rng.random() < 0.3:
         letters["s"] = ["v%d" % j for j in range(n)]
+    if rng.random() < 0.25:
+        letters["secondary_structure"] = "".join(rng.sample(LETTERS, n)) if n <= len(LETTERS) else gen.rand_dna(rng, n, ".()")   # a string-valued track
+    if rng.random() < 0.2:
+        letters["tup_q"] = list(range(200, 200 + n))                                                                            # a tuple-valued track
     rec = {"id": "r%d" % case["i"], "name": "nm", "seq": seq, "features": feats, "letters": letters,
            "annotations": {"topology": "circular", "molecule_type": "DNA", "tags": ["x"]}, "dbxrefs": ["db:1"]}
     mode = rng.choice(["single", "additive", "identity", "inverse", "mixed"])
